@@ -14,6 +14,7 @@ one() {
   case $id in
     C07-3) checks=C07,C09;; C07-r2-3) checks=C07,C08;; C06-r2-1|C06-r2-3) checks=C06,C13;;
     C08-r3-2|C08-r3-3) checks=C08,C09;; C07-r3-2) checks=C07,C09;; C04-r3-3) checks=C04,C13;; C04-r3-1) checks=C04,C14;;
+    C15-r4-1) checks=C15,C03;; C09-r4-1) checks=C09,C13;;
     C08-r5-1) checks=C08,C09;; C18-r5-1) checks=C18,C09;; C19-r5-2) checks=C19,C10;;
     *) checks=$p;;
   esac
